@@ -126,10 +126,61 @@ theorem filter_complete {lk : Lookup} (hlk : FourLetter lk) (t q : List UInt8) (
     rw [if_neg (by omega), if_neg (by omega), if_neg (by omega), if_neg (by omega)]
   · intro hits hf a b hm hreq
     rw [rule_tie] at hf
-    obtain ⟨hits', hf', hcov⟩ := filter_complete_aux hlk t q k n e off selfAlign hk1.1 hk1.2 (by omega) hq hthr he hoff a b hm hreq
+    obtain ⟨hits', hf', hcov⟩ := filter_complete_aux hlk t q k n e off selfAlign false hk1.1 hk1.2 (by omega) hq hthr he hoff a b hm hreq
     rw [hf] at hf'
     cases hf'
     exact hcov
+
+/-- **C14 on the complement strand** (`complement = true`, the second pass of `PALS.Align`): same
+    parameter ranges as `filter_complete`, the query being whatever the caller hands over (PALS: the
+    reverse complement of the query).  Without self comparison the flag has no effect and every
+    ε-match is covered.  In a self comparison the filter cuts the common k-mers below the
+    anti-diagonal (`q < Tlen - t`), and every ε-match that lies on or above it — `Tlen ≤ a + b`, i.e.
+    none of its k-mers is cut — is covered by a reported hit.  For `q = revcomp t` each pair of
+    regions appears twice, mirrored about the anti-diagonal, and of a pair of disjoint regions
+    exactly one image satisfies `Tlen ≤ a + b` (`C14_checker.requiredC_mirror`): every inverted
+    repeat with disjoint arms is found, once. -/
+theorem filter_complete_complement {lk : Lookup} (hlk : FourLetter lk) (t q : List UInt8) (k n e off : Nat)
+    (selfAlign : Bool) (hk : Biogo.Kmer.minKmerLen ≤ k) (hk' : k ≤ Biogo.Kmer.maxKmerLen)
+    (ht : k + 1 ≤ t.length) (hq : AllValid lk q)
+    (hthr : 0 < minWordsPerFilterHit n k e) (he : e ≤ off) (hoff : 1 ≤ off) :
+    ∀ hits, filter Biogo.Generated.FilterFacts.rule lk (builtIndex lk k t)
+        { minMatch := n, maxError := e, tubeOffset := off } q selfAlign true = .ok hits →
+      ∀ a b, EpsMatch lk t q n e a b → (selfAlign = true → t.length ≤ a + b) →
+        Covered (hits.map toSpec) (off + e) n a b := by
+  have hk1 : 2 ≤ k ∧ 2 * k ≤ Biogo.Kmer.wordBits := by
+    unfold Biogo.Kmer.minKmerLen at hk; unfold Biogo.Kmer.maxKmerLen at hk'; unfold Biogo.Kmer.wordBits; omega
+  intro hits hf a b hm hreq
+  rw [rule_tie] at hf
+  have hreq' : requiredC selfAlign true t.length a b = true := by
+    unfold requiredC
+    cases selfAlign with
+    | false => rfl
+    | true => simpa using hreq rfl
+  obtain ⟨hits', hf', hcov⟩ := filter_complete_aux hlk t q k n e off selfAlign true hk1.1 hk1.2 (by omega) hq hthr he hoff a b hm hreq'
+  rw [hf] at hf'
+  cases hf'
+  exact hcov
+
+/-- both strands in one statement, in the form the driver's checker evaluates it
+    (`C14_checker.checker_iff_strand`): whatever the two flags, every ε-match required on that strand
+    (`requiredC`) is covered. -/
+theorem filter_complete_strand {lk : Lookup} (hlk : FourLetter lk) (t q : List UInt8) (k n e off : Nat)
+    (selfAlign complement : Bool) (hk : Biogo.Kmer.minKmerLen ≤ k) (hk' : k ≤ Biogo.Kmer.maxKmerLen)
+    (ht : k + 1 ≤ t.length) (hq : AllValid lk q)
+    (hthr : 0 < minWordsPerFilterHit n k e) (he : e ≤ off) (hoff : 1 ≤ off) :
+    ∀ hits, filter Biogo.Generated.FilterFacts.rule lk (builtIndex lk k t)
+        { minMatch := n, maxError := e, tubeOffset := off } q selfAlign complement = .ok hits →
+      ∀ a b, EpsMatch lk t q n e a b → requiredC selfAlign complement t.length a b = true →
+        Covered (hits.map toSpec) (off + e) n a b := by
+  have hk1 : 2 ≤ k ∧ 2 * k ≤ Biogo.Kmer.wordBits := by
+    unfold Biogo.Kmer.minKmerLen at hk; unfold Biogo.Kmer.maxKmerLen at hk'; unfold Biogo.Kmer.wordBits; omega
+  intro hits hf a b hm hreq
+  rw [rule_tie] at hf
+  obtain ⟨hits', hf', hcov⟩ := filter_complete_aux hlk t q k n e off selfAlign complement hk1.1 hk1.2 (by omega) hq hthr he hoff a b hm hreq
+  rw [hf] at hf'
+  cases hf'
+  exact hcov
 
 /-! ### refutation of the full statement for the rules of the pinned tree -/
 
@@ -162,6 +213,27 @@ theorem filter_incomplete_flush :
 
 -- the same two inputs are covered under the repaired rule (as `filter_complete` says they must be)
 example : misses repaired 4 13 1 8 [116, 116, 97, 103, 103, 97, 99, 99, 99, 103, 103, 116, 116, 103, 99, 103, 116, 116, 99, 99] [97, 99, 99, 99, 103, 103, 99, 116, 103, 99, 103, 116, 116, 99, 116, 116, 103, 116, 97, 116, 103, 103, 99, 116, 103, 97, 103, 97] 5 0 = false ∧ misses repaired 4 4 0 2 [99, 97, 97, 99, 99] [97, 99, 97, 97, 99, 97, 97, 97, 99, 97] 0 1 = false := by
+  decide +kernel
+
+/-! ### non-vacuity of the complement statement -/
+
+/-- `misses` with both flags -/
+def missesC (rule : Rule) (k n e off : Nat) (t q : List UInt8) (selfAlign complement : Bool) (a b : Nat) : Bool :=
+  match filter rule dna (builtIndex dna k t) { minMatch := n, maxError := e, tubeOffset := off } q selfAlign complement with
+  | .ok hits => !(hits.any fun h => covers (off + e) n (toSpec h) a b)
+  | .error _ => false
+
+-- `caacgttg` is its own reverse complement (`L = 8`); `k = n = 4`, `e = 0`, `off = 2`.  The exact
+-- matches are the five windows of the main diagonal.  `(4, 4)` lies on the anti-diagonal
+-- (`a + b = L`): required, and covered.  Its mirror image `(0, 0)` (the same pair of regions
+-- `[0,4)`, `[4,8)`) lies below: not required, and indeed cut — the pair is reported once.
+example :
+    EpsMatch dna [99, 97, 97, 99, 103, 116, 116, 103] [99, 97, 97, 99, 103, 116, 116, 103] 4 0 4 4 ∧
+    requiredC true true 8 4 4 = true ∧
+    missesC repaired 4 4 0 2 [99, 97, 97, 99, 103, 116, 116, 103] [99, 97, 97, 99, 103, 116, 116, 103] true true 4 4 = false ∧
+    EpsMatch dna [99, 97, 97, 99, 103, 116, 116, 103] [99, 97, 97, 99, 103, 116, 116, 103] 4 0 0 0 ∧
+    requiredC true true 8 0 0 = false ∧
+    missesC repaired 4 4 0 2 [99, 97, 97, 99, 103, 116, 116, 103] [99, 97, 97, 99, 103, 116, 116, 103] true true 0 0 = true := by
   decide +kernel
 
 end Biogo.Properties.C14
